@@ -639,6 +639,108 @@ def _is_real(expr):
     return True
 
 
+NONZERO_EXPRS = set()  # structural keys of P-bases asserted non-zero by the side condition of the current obligation
+NONNEG_INPUTS = set()  # symbolic inputs whose entries are >= 0 (precondition of the obligation, or `ensures` of a stubbed solver)
+
+
+def sign_nonneg(expr):
+    """Float-robust sign domain (DESIGN §2.9 A1): True when the expression is non-negative BY CONSTRUCTION — a sum with
+    non-negative coefficients of products of factors each of which is non-negative (entries of inputs declared non-negative,
+    sizes, abs(.), clip(., lo >= 0, .), even powers, square roots / inverses of such) — facts that survive IEEE rounding."""
+    for t in expr.terms:
+        if t.coef < 0:
+            return False
+        for a, e in t.facs:
+            if not _atom_nonneg(a, e):
+                return False
+    return True
+
+
+def shape_key(expr):
+    """structural key of an expression with every index variable masked (insensitive to renaming of free/bound variables)"""
+    def ix(i):
+        if isinstance(i, str):
+            return "?"
+        if isinstance(i, tuple) and i:
+            if i[0] == "G":
+                return ("G", i[1], tuple(ix(j) for j in i[2]))
+            if i[0] in ("O", "DIV", "MOD"):
+                return (i[0], ix(i[1]), i[2])
+            if i[0] == "MIX":
+                return ("MIX", tuple((ix(t_), k) for t_, k in i[1]))
+        return i
+
+    def at(a):
+        k = a[0]
+        if k == "E":
+            return ("E", a[1], tuple(ix(i) for i in a[2]), a[3])
+        if k == "D":
+            return ("D",)
+        if k == "I":
+            return ("I", a[2])
+        if k == "P":
+            return ("P", shape_key(a[1]))
+        if k == "F":
+            return ("F", a[1], tuple(shape_key(x) for x in a[2]))
+        return a
+    return tuple(sorted((repr((t.coef, len(t.bound), tuple(sorted(repr((at(a), e)) for a, e in t.facs)))) for t in expr.terms)))
+
+
+def _strictly_pos(expr):
+    """sum of terms each strictly positive: positive coefficient and every factor strictly positive"""
+    if not expr.terms:
+        return False
+    for t in expr.terms:
+        if t.coef <= 0 or t.bound:
+            return False
+        for a, e in t.facs:
+            if not _atom_pos(a):
+                return False
+    return True
+
+
+def _atom_pos(a):
+    k = a[0]
+    if k == "N":
+        return True
+    if k == "F" and a[1] == "clip":
+        lo = a[2][1]
+        return len(lo.terms) == 1 and not lo.terms[0].facs and lo.terms[0].coef > 0
+    if k == "P":
+        # non-zero column norms are the obligation's side condition: only the quantities that went through where(q == 0, 1, q)
+        return _strictly_pos(a[1]) or (shape_key(a[1]) in NONZERO_EXPRS and sign_nonneg(a[1]))
+    return False
+
+
+def _atom_nonneg(a, e):
+    k = a[0]
+    if e < 0:
+        # a divisor must be strictly positive (otherwise 0/0 = NaN is not a non-negative number)
+        return _atom_pos(a)
+    if k in ("N", "D", "I"):
+        return True
+    if e.denominator == 1 and e % 2 == 0:
+        return True
+    if k == "E":
+        return a[1] in NONNEG_INPUTS
+    if k == "P":
+        return sign_nonneg(a[1])
+    if k == "F":
+        if a[1] == "abs":
+            return True
+        if a[1] == "clip":
+            lo = a[2][1]
+            if len(lo.terms) == 0:
+                return True  # lower bound 0
+            if len(lo.terms) == 1 and not lo.terms[0].facs:
+                return lo.terms[0].coef >= 0
+            if len(lo.terms) == 1 and lo.terms[0].facs and lo.terms[0].facs[0][0][0] == "K":
+                return False  # -inf: no lower bound
+            return sign_nonneg(lo)
+        return False
+    return False
+
+
 def simplify_term(t):
     """Returns a list of Terms equal to t with: integer powers of P/abs expanded, deltas contracted,
     indicators absorbed, unused bound variables turned into size factors."""
